@@ -573,3 +573,45 @@ MODULES["ParDot"] = dict(
     context=["Context {A : Arith}.", "Variable num_cpus_ : nat."],
     spec=dict(paths={("num_cpus::get", 0): dict(g="num_cpus_", ret="usize", atom=True)}),
     funcs=[dict(name="dot_f64", file=V_F64, impl=r"^Vector<f64>$", fn="dot_f64", locals={"threads": "handles"})])
+
+# ---------------------------------------------------------------------------------------------------- MatNorms (Model/MatNorms.v): round two
+# the norms of `impl Matrix<f64>` (src/matrix/functions.rs) over an SArith.  f64::max(result, x) is the model's fmax (the
+# reading documented in Model/MatNorms.v: the running maximum is never NaN); f64::powf is the Section variable powf (libm).
+MODULES["MatNorms"] = dict(
+    imports="From OV Require Import Base.Panic Base.Arith Model.Vector Model.Matrix Model.MatNorms gen.SrcPrelude.",
+    context=["Context {F : SArith}.", "Variable powf : F -> F -> F.", "Local Notation A := (SA F)."],
+    spec=dict(sarith=True,
+              methods={("elem", "max", 1): dict(g="fmax {0} {1}", ret="elem", args=["elem"]),
+                       ("mat", "norm_p", 1): dict(g="(let* s := mnorm_p_sum (fun x => powf x {1}) {0} in let* ip := div (@one A) {1} in Ok (powf s ip))",
+                                                  ret="elem", fallible=True, args=["elem"])},
+              paths={("f64::powf", 2): dict(g="powf {0} {1}", ret="elem", args=["elem", "elem"])}),
+    funcs=[dict(name=n, file=M_FUN, impl=r"^Matrix<f64>$", fn=f) for n, f in
+           [("mnorm_1", "norm_1"), ("mnorm_inf", "norm_inf"), ("mnorm_p", "norm_p"), ("mnorm_frob", "norm_frob"), ("mnorm_max", "norm_max")]])
+
+# ---------------------------------------------------------------------------------------------------- VectorOps (Model/Vector.v): round two
+# the editing operations / constructors / find / resize of src/vector/{mod,operations,functions}.rs that round one left out.
+# Vec::insert(pos, x) is vinsert (Panic Index when pos > len), Vec::pop() the pair (removelast, last element as an Option),
+# Vec::resize_with(n, Default::default) is vresize (Default::default() = zero for the element types in use),
+# v.iter().position(|x| *x == value) is find_first v value 0.
+CONSTS["Default::default"] = ("(@zero A)", "elem")
+V_MOD, V_OPS = "src/vector/mod.rs", "src/vector/operations.rs"
+MODULES["VectorOps"] = dict(
+    imports="From OV Require Import Base.Panic Base.Arith Model.Vector gen.SrcPrelude.",
+    spec=dict(methods={("vec", "insert", 2): dict(g="vinsert {0} {1} {2}", ret="unit", fallible=True, out=["recv"], args=["usize", "elem"]),
+                       ("vec", "pop", 0): dict(g="(removelast {0}, last_opt {0})", ret=("opt", "elem"), out=["recv", "ret"]),
+                       ("vec", "resize_with", 2): dict(g="vresize {0} {1}", ret="unit", out=["recv"], args=["usize", "elem"], require={1: "(@zero A)"})}),
+    funcs=[
+        dict(name="vfind", file=V_FUN, impl=r"^<T:std::cmp::PartialEq>Vector<T>$", fn="find"),
+        dict(name="vresize", file=V_FUN, impl=r"^<T:std::default::Default>Vector<T>$", fn="resize"),
+        dict(name="vindex", file=V_OPS, impl=r"^<T>Index<usize>forVector<T>$", fn="index"),
+        dict(name="vclear", file=V_OPS, impl=r"^<T>Vector<T>$", fn="clear"),
+        dict(name="vswap", file=V_OPS, impl=r"^<T>Vector<T>$", fn="swap"),
+        dict(name="vpush", file=V_OPS, impl=r"^<T>Vector<T>$", fn="push"),
+        dict(name="vpush_front", file=V_OPS, impl=r"^<T>Vector<T>$", fn="push_front"),
+        dict(name="vinsert", file=V_OPS, impl=r"^<T>Vector<T>$", fn="insert"),
+        dict(name="vpop", file=V_OPS, impl=r"^<T>Vector<T>$", fn="pop"),
+        dict(name="vsize", file=V_MOD, impl=r"^<T>Vector<T>$", fn="size"),
+        dict(name="vnew", file=V_MOD, impl=r"^<T:Clone>Vector<T>$", fn="new"),
+        dict(name="vzeros", file=V_MOD, impl=r"^<T:Clone\+Number>Vector<T>$", fn="zeros"),
+        dict(name="vones", file=V_MOD, impl=r"^<T:Clone\+Number>Vector<T>$", fn="ones"),
+    ])
